@@ -205,10 +205,8 @@ def oracle(case, R):
         F_in = F[perm]
         # force samples in the caller's own container: integer-valued histories as an integer array or nested
         # lists (the solvers must compute in floating point whatever the dtype of the samples)
-        fpack = case.get("fpack", "float")
-        if fpack != "float" and np.all(F_in == np.round(F_in)) and np.abs(F_in).max() < 2 ** 40:
-            F_call = F_in.astype(np.int64) if fpack == "int" else F_in.astype(np.int64).tolist()
-            R.label("force:" + fpack)
+        F_call, lab_ = util.repack(F_in, case.get("fpack", "same"))
+        R.label("force:" + lab_)
         d0_in = None if d0 is None else d0[perm]
         v0_in = None if v0 is None else v0[perm]
         tr = lambda q: q                           # noqa: E731
@@ -344,9 +342,11 @@ def oracle(case, R):
         Fm = F_in if M_in is None else (F_in / M_in[:, None] if np.ndim(M_in) == 1 else la.solve(M_in, F_in))
         f1 = np.vstack((Fm, np.zeros_like(Fm)))
         if M_in is None and F_call is not F_in:
-            f1 = np.vstack((np.asarray(F_call), np.zeros_like(np.asarray(F_call))))   # integer dtype
+            f1 = np.vstack((np.asarray(F_call), np.zeros_like(np.asarray(F_call))))   # dtype of the samples
             if isinstance(F_call, list):
                 f1 = f1.tolist()
+            elif not np.asarray(F_call).flags.writeable:
+                f1.flags.writeable = False
         y0 = np.r_[np.zeros(n) if v0_in is None else v0_in, np.zeros(n) if d0_in is None else d0_in]
         s1 = ts1.tsolve(f1, y0)
         from types import SimpleNamespace
@@ -472,7 +472,7 @@ def cases(draw, form):
             "fscale": fscale, "icscale": draw(st.sampled_from([1.0, 1e-2])),
             "f0zero": draw(st.booleans()), "cpl": draw(st.sampled_from([0.05, 0.3, 0.8])),
             "physnonprop": form == "physical" and draw(st.booleans()),
-            "fpack": draw(st.sampled_from(["float", "float", "int", "list"]))}
+            "fpack": draw(st.sampled_from(util.PACKS))}
 
 
 def enum_rbd(shard, nshards, tier):
